@@ -1,45 +1,58 @@
 (* C02 - == is content equality plus origin equality at every position.
    ONLY statements. eqn = the transcription of ASTNode.__eq__ (class identity, content_id, root origin, then
-   zip(strict=True) over both dfs() streams); result EqValueError = zip raised, EqFuel = the dfs machine ran out
-   of fuel (both proved impossible).  origins_eq a b = position-wise equality (dataclass ==) of the pre-order
-   origin lists, roots included.  The characterisation needs the converse direction of C01 ("equal content_id
-   => content-equal", provable for collision-free digests only): it enters as the explicit premise [complete]. *)
-From Oak Require Import Model.Equality Spec.CEq Proofs.EqualityProofs.
+   zip(strict=True) over both dfs() streams); EqValueError = the zip raised, EqFuel = the dfs machine ran out of
+   fuel (both proved impossible).  origins_eq a b = position-wise equality (dataclass ==) of the pre-order origin
+   lists, roots included.  The converse of C01 (equal content_id => content-equal) is needed for the
+   characterisation; it is instantiated with C01_complete_nested, whose premises are: H collision-free and
+   hex-valued, names_ok ct, node_values_ok, node_deep (see Props/C01b.v for what they say; they exclude no
+   Python value). *)
+From Oak Require Import Model.Equality Spec.CEq Proofs.EncodeComplete Proofs.EqualityProofs.
 
-Definition c01_complete (H : pystr -> pystr) ct vr : Prop :=
-  forall a b, wf_node ct a = true -> wf_node ct b = true ->
-    cls a = cls b -> content_id H ct vr a = content_id H ct vr b -> ceq ct a b.
+Definition digest_ok (H : pystr -> pystr) : Prop :=
+  (forall x y, H x = H y -> x = y) /\ (forall x, forallb is_hex (H x) = true).
+Definition good ct et (n : node) : Prop := node_values_ok ct n /\ node_deep ct et n.
+
+Lemma c01_complete H ct et : digest_ok H -> names_ok ct ->
+  forall a b, good ct et a -> good ct et b -> wf_node ct a = true -> wf_node ct b = true ->
+  cls a = cls b -> content_id H ct current a = content_id H ct current b -> ceq ct a b.
+Proof.
+  intros [Hi Hh] Hn a b [Va Da] [Vb Db] Wa Wb _ E. exact (complete_deep H ct et Hi Hh Hn a b Wa Wb Va Vb Da Db E).
+Qed.
 
 (* on content-equal trees == never raises and is exactly position-wise origin equality; no premise on H *)
 Theorem C02_eq_of_ceq : forall H ct vr, v_stable vr = true ->
   forall a b, wf_node ct a = true -> wf_node ct b = true -> ceq ct a b ->
   eqn H ct vr a b = if origins_eq a b then EqTrue else EqFalse.
 Proof. exact eq_of_ceq. Qed.
-Theorem C02_char : forall H ct vr, v_stable vr = true -> c01_complete H ct vr ->
-  forall a b, wf_node ct a = true -> wf_node ct b = true ->
-  (eqn H ct vr a b = EqTrue <-> cls a = cls b /\ ceq ct a b /\ origins_eq a b = true).
-Proof. exact eq_char. Qed.
+(* the property sentence *)
+Theorem C02_char : forall H ct et, digest_ok H -> names_ok ct ->
+  forall a b, good ct et a -> good ct et b -> wf_node ct a = true -> wf_node ct b = true ->
+  (eqn H ct current a b = EqTrue <-> cls a = cls b /\ ceq ct a b /\ origins_eq a b = true).
+Proof. intros H ct et HD HN. exact (eq_char H ct current eq_refl (good ct et) (c01_complete H ct et HD HN)). Qed.
 (* == is total: the strict zip never raises, the traversal never runs out of fuel *)
-Theorem C02_total : forall H ct vr, v_stable vr = true -> c01_complete H ct vr ->
-  forall a b, wf_node ct a = true -> wf_node ct b = true ->
-  eqn H ct vr a b = EqTrue \/ eqn H ct vr a b = EqFalse.
-Proof. exact eq_total. Qed.
+Theorem C02_total : forall H ct et, digest_ok H -> names_ok ct ->
+  forall a b, good ct et a -> good ct et b -> wf_node ct a = true -> wf_node ct b = true ->
+  eqn H ct current a b = EqTrue \/ eqn H ct current a b = EqFalse.
+Proof. intros H ct et HD HN. exact (eq_total H ct current eq_refl (good ct et) (c01_complete H ct et HD HN)). Qed.
 Theorem C02_refl : forall H ct vr, v_stable vr = true ->
   forall a, wf_node ct a = true -> eqn H ct vr a a = EqTrue.
 Proof. exact eq_refl_. Qed.
-Theorem C02_sym : forall H ct vr, v_stable vr = true -> c01_complete H ct vr ->
-  forall a b, wf_node ct a = true -> wf_node ct b = true -> eqn H ct vr a b = eqn H ct vr b a.
-Proof. exact eq_sym. Qed.
-Theorem C02_trans : forall H ct vr, v_stable vr = true -> c01_complete H ct vr ->
-  forall a b c, wf_node ct a = true -> wf_node ct b = true -> wf_node ct c = true ->
-  eqn H ct vr a b = EqTrue -> eqn H ct vr b c = EqTrue -> eqn H ct vr a c = EqTrue.
-Proof. exact eq_trans. Qed.
+Theorem C02_sym : forall H ct et, digest_ok H -> names_ok ct ->
+  forall a b, good ct et a -> good ct et b -> wf_node ct a = true -> wf_node ct b = true ->
+  eqn H ct current a b = eqn H ct current b a.
+Proof. intros H ct et HD HN. exact (eq_sym H ct current eq_refl (good ct et) (c01_complete H ct et HD HN)). Qed.
+Theorem C02_trans : forall H ct et, digest_ok H -> names_ok ct ->
+  forall a b c, good ct et a -> good ct et b -> good ct et c ->
+  wf_node ct a = true -> wf_node ct b = true -> wf_node ct c = true ->
+  eqn H ct current a b = EqTrue -> eqn H ct current b c = EqTrue -> eqn H ct current a c = EqTrue.
+Proof. intros H ct et HD HN. exact (eq_trans H ct current eq_refl (good ct et) (c01_complete H ct et HD HN)). Qed.
 Theorem C02_other_class_false : forall H ct vr a b, cls a <> cls b -> eqn H ct vr a b = EqFalse.
 Proof. exact eq_other_class. Qed.
-Theorem C02_ne_negation : forall H ct vr, v_stable vr = true -> c01_complete H ct vr ->
-  forall a b, wf_node ct a = true -> wf_node ct b = true ->
-  (neqn H ct vr a b = EqTrue <-> eqn H ct vr a b = EqFalse) /\ (neqn H ct vr a b = EqFalse <-> eqn H ct vr a b = EqTrue).
-Proof. exact neq_negation. Qed.
+Theorem C02_ne_negation : forall H ct et, digest_ok H -> names_ok ct ->
+  forall a b, good ct et a -> good ct et b -> wf_node ct a = true -> wf_node ct b = true ->
+  (neqn H ct current a b = EqTrue <-> eqn H ct current a b = EqFalse)
+  /\ (neqn H ct current a b = EqFalse <-> eqn H ct current a b = EqTrue).
+Proof. intros H ct et HD HN. exact (neq_negation H ct current eq_refl (good ct et) (c01_complete H ct et HD HN)). Qed.
 (* what makes the zip meaningful: content-equal trees have position lists of equal length, and the stream dfs()
    yields is the declarative pre-order list *)
 Theorem C02_dfs_shape : forall ct a b, ceq ct a b -> length (all_origins a) = length (all_origins b).
@@ -50,3 +63,16 @@ Proof. exact stream_origins_wf. Qed.
 Theorem C02_origin_eq_equiv : (forall o, origin_eqb o o = true) /\ (forall o o', origin_eqb o o' = origin_eqb o' o)
   /\ (forall o o' o'', origin_eqb o o' = true -> origin_eqb o' o'' = true -> origin_eqb o o'' = true).
 Proof. exact (conj origin_eqb_refl (conj origin_eqb_sym origin_eqb_trans)). Qed.
+
+(* the premises are inhabited (the digest tohex and the trees of Props/C01b.v) *)
+Example C02_nonvacuous :
+  digest_ok tohex /\ names_ok ex_ct2 /\ good ex_ct2 ex_et ex_a2 /\ good ex_ct2 ex_et ex_b2
+  /\ wf_node ex_ct2 ex_a2 = true /\ wf_node ex_ct2 ex_b2 = true /\ eqn tohex ex_ct2 current ex_a2 ex_a2 = EqTrue
+  /\ (eqn tohex ex_ct2 current ex_a2 ex_b2 = EqTrue \/ eqn tohex ex_ct2 current ex_a2 ex_b2 = EqFalse).
+Proof.
+  pose proof complete_premises as (Hi & Hh & _). pose proof complete_premises_nested as (N & Wa & Wb & Va & Vb & Da & Db & _).
+  split; [split; assumption|]. split; [assumption|]. split; [split; assumption|]. split; [split; assumption|].
+  split; [assumption|]. split; [assumption|]. split.
+  - vm_compute. reflexivity.
+  - vm_compute. auto.
+Qed.
